@@ -38,7 +38,7 @@ theorem wakeNext_mapFrame (p : Pool) :
 request, 0 otherwise) is now in flight and goes to the new task -/
 theorem roomGranted_tail {cap : Cap} {L : Bool} (p : Pool) (m : Nat) (isMap : Bool) (hph : PhaseOK p) (hreg : RegOK p)
     (hgrp : GroupsOK p) (hlife : LifeOK p) (hpre : SlotPre cap p) (hst : Strict L p)
-    (hmap : MapMid p m (if isMap then 1 else 0)) (hlt : m < p.reqs.length) :
+    (hmap : MapMid p m (if isMap then 1 else 0)) (hlt : m < p.reqs.length) (hfl : FlushOK p) :
     Good cap L (((if (!p.sem.value.isZero) = true then (({ p with sem := p.sem.wakeNext.1 } : Pool).schedOpt p.sem.wakeNext.2) else p).createTask m
       isMap).continueSpawner m) := by
   split
@@ -48,7 +48,8 @@ theorem roomGranted_tail {cap : Cap} {L : Bool} (p : Pool) (m : Nat) (isMap : Bo
     have hlt' : m < (({ p with sem := p.sem.wakeNext.1 } : Pool).schedOpt p.sem.wakeNext.2).reqs.length :=
       Nat.lt_of_lt_of_le hlt (wakeNext_mapFrame p).rql
     refine good_continueSpawner _ m ⟨good0_createTask_afterTake _ m _ ?_ (hreg.of_eq h3 r1 r2 r3 r4)
-      (hgrp.of_eq (by simp) (by rw [h3])) (hlife.of_eq h3 r4) ?_ (hst.of_eq r4 (wakeNext_apis p)),
+      (hgrp.of_eq (by simp) (by rw [h3])) (hlife.of_eq h3 r4) ?_ (hst.of_eq r4 (wakeNext_apis p))
+      (hfl.frame (by simp) (wakeNext_apis p) (fun t ⟨tk, a, b⟩ => ⟨tk, by rw [h3]; exact a, b⟩)),
       mapOK_createTask isMap ((wakeNext_mapFrame p).mid hmap hlt) hlt'⟩ (by rw [reqsLen_createTask]; exact hlt')
     · intro i tk h hn; rw [h3] at h; exact hph i tk h hn
     · cases cap with
@@ -61,17 +62,19 @@ theorem roomGranted_tail {cap : Cap} {L : Bool} (p : Pool) (m : Nat) (isMap : Bo
         obtain ⟨v', h1, h2, _⟩ := wakeNext_effect p v hv hpos
         exact ⟨v', h1, by rw [h3]; omega⟩
       | inf => exact wakeNext_inf p hpre.1 hpre.2
-  · exact good_continueSpawner _ m ⟨good0_createTask_afterTake p m _ hph hreg hgrp hlife hpre hst,
+  · exact good_continueSpawner _ m ⟨good0_createTask_afterTake p m _ hph hreg hgrp hlife hpre hst hfl,
       mapOK_createTask isMap hmap hlt⟩ (by rw [reqsLen_createTask]; exact hlt)
 
 theorem roomGranted_good {cap : Cap} {L : Bool} (p : Pool) (m : Nat) (r : Req) (hph : PhaseOK p) (hreg : RegOK p)
     (hgrp : GroupsOK p) (hlife : LifeOK p) (hpre : SlotPre cap p) (hst : Strict L p)
     (hmap : MapOK p) (hlt : m < p.reqs.length)
-    (hfr : ReqAt p m (fun x => x.frame = .waitRoom ∧ x.kind = r.kind)) : Good cap L (p.roomGranted m r) := by
+    (hfr : ReqAt p m (fun x => x.frame = .waitRoom ∧ x.kind = r.kind)) (hfl : FlushOK p) :
+    Good cap L (p.roomGranted m r) := by
   unfold roomGranted
   simp only
   refine roomGranted_tail (p.modReq m fun x => { x with frame := MFrame.running }) m (r.kind == .map) hph
     (hreg.of_eq rfl rfl rfl rfl rfl) (hgrp.of_eq rfl rfl) (hlife.of_eq rfl rfl) hpre hst ?_ (by simpa [modReq] using hlt)
+    (hfl.frame rfl rfl (fun _ h => h))
   -- the ghost frame: the map slot a map spawner carried is now in flight
   refine (hmap.mid m).modReq _ _ ?_ (fun _ => rfl) (fun _ _ _ _ hf => by cases hf)
   intro x v hx hv
@@ -147,7 +150,7 @@ spawner carried -/
 theorem roomWaitCancelled_good {cap : Cap} {L : Bool} (p : Pool) (m : Nat) (r : Req) (st : Option WaitSt) (hph : PhaseOK p)
     (hreg : RegOK p) (hgrp : GroupsOK p) (hlife : LifeOK p) (hsg : SlotGrant cap p st) (hst' : Strict L p)
     (hmap : MapOK p) (hlt : m < p.reqs.length)
-    (hfr : ReqAt p m (fun x => x.frame = .waitRoom ∧ x.kind = r.kind ∧ x.acquired = r.acquired)) :
+    (hfr : ReqAt p m (fun x => x.frame = .waitRoom ∧ x.kind = r.kind ∧ x.acquired = r.acquired)) (hfl : FlushOK p) :
     Good cap L (p.roomWaitCancelled m r st) := by
   unfold roomWaitCancelled
   simp only
@@ -161,6 +164,7 @@ theorem roomWaitCancelled_good {cap : Cap} {L : Bool} (p : Pool) (m : Nat) (r : 
       have h3 := releasePool_tasks' p
       obtain ⟨r1, r2, r3, r4⟩ := releasePool_regs p
       refine ⟨⟨⟨?_, ?_, hreg.of_eq h3 r1 r2 r3 r4, hgrp.of_eq (releasePool_groups p) (by rw [h3]), hlife.of_eq h3 r4,
+        hfl.frame (releasePool_gathers p) (releasePool_apis p) (fun t ⟨tk, a, b⟩ => ⟨tk, by rw [h3]; exact a, b⟩),
         (hst'.of_eq r4 (releasePool_apis p)).1, (hst'.of_eq r4 (releasePool_apis p)).2⟩,
         (mapFrame_releasePool p).map hmap⟩, reqAt_releasePool hfr (fun _ h => h),
         Nat.lt_of_lt_of_le hlt (mapFrame_releasePool p).rql⟩
@@ -174,7 +178,7 @@ theorem roomWaitCancelled_good {cap : Cap} {L : Bool} (p : Pool) (m : Nat) (r : 
       · intro i tk h hn; rw [h3] at h; exact hph i tk h hn
     · rename_i h
       have hst : ¬ st = some .granted := by simpa using h
-      refine ⟨⟨⟨?_, hph, hreg, hgrp, hlife, hst'.1, hst'.2⟩, hmap⟩, hfr, hlt⟩
+      refine ⟨⟨⟨?_, hph, hreg, hgrp, hlife, hfl, hst'.1, hst'.2⟩, hmap⟩, hfr, hlt⟩
       cases cap with
       | fin n =>
         obtain ⟨v, hv, hs⟩ := hsg
@@ -213,13 +217,15 @@ theorem good_wakeWaitRoom {cap : Cap} {L : Bool} (p : Pool) (m : Nat) (r : Req) 
   have hmp : MapOK (({ p with sem := { p.sem with waiters := (removeWaiterL m p.sem.waiters).2 } } : Pool).modReq m
       fun x => { x with mustCancel := false }) :=
     (tame_modReq _ m _).map (hg.map.of_eq rfl rfl)
+  have hfl : FlushOK (({ p with sem := { p.sem with waiters := (removeWaiterL m p.sem.waiters).2 } } : Pool).modReq m
+      fun x => { x with mustCancel := false }) := hg.fl.frame rfl rfl (fun _ h => h)
   have hlt2 : m < (({ p with sem := { p.sem with waiters := (removeWaiterL m p.sem.waiters).2 } } : Pool).modReq m
       fun x => { x with mustCancel := false }).reqs.length := by simpa [modReq] using hlt
   have hfr2 : ReqAt (({ p with sem := { p.sem with waiters := (removeWaiterL m p.sem.waiters).2 } } : Pool).modReq m
       fun x => { x with mustCancel := false }) m (fun x => x.frame = .waitRoom ∧ x.kind = r.kind ∧ x.acquired = r.acquired) :=
     ReqAt.modReq (p := ({ p with sem := { p.sem with waiters := (removeWaiterL m p.sem.waiters).2 } } : Pool)) hfr _ (fun _ h => h)
   split
-  · refine roomWaitCancelled_good _ m r _ hph hreg hgrp hlife ?_ hstr hmp hlt2 hfr2
+  · refine roomWaitCancelled_good _ m r _ hph hreg hgrp hlife ?_ hstr hmp hlt2 hfr2 hfl
     cases cap with
     | fin n =>
       obtain ⟨v, hv, hs⟩ := hg.slot
@@ -230,7 +236,7 @@ theorem good_wakeWaitRoom {cap : Cap} {L : Bool} (p : Pool) (m : Nat) (r : Req) 
   · split
     · rename_i hgr
       have hst : (removeWaiterL m p.sem.waiters).1 = some .granted := by simpa using hgr
-      refine roomGranted_good _ m r hph hreg hgrp hlife ?_ hstr hmp hlt2 (fun x hx => ⟨(hfr2 x hx).1, (hfr2 x hx).2.1⟩)
+      refine roomGranted_good _ m r hph hreg hgrp hlife ?_ hstr hmp hlt2 (fun x hx => ⟨(hfr2 x hx).1, (hfr2 x hx).2.1⟩) hfl
       cases cap with
       | fin n =>
         obtain ⟨v, hv, hs⟩ := hg.slot
@@ -240,7 +246,7 @@ theorem good_wakeWaitRoom {cap : Cap} {L : Bool} (p : Pool) (m : Nat) (r : Req) 
       exact ⟨hv, by simp [modReq, hw, removeWaiterL]⟩
     · rename_i hc hgr
       have hst : ¬ (removeWaiterL m p.sem.waiters).1 = some .granted := by simpa using hgr
-      refine ⟨⟨?_, hph, hreg, hgrp, hlife, hstr.1, hstr.2⟩, hmp⟩
+      refine ⟨⟨?_, hph, hreg, hgrp, hlife, hfl, hstr.1, hstr.2⟩, hmp⟩
       cases cap with
       | fin n =>
         obtain ⟨v, hv, hs⟩ := hg.slot
@@ -344,12 +350,56 @@ theorem good_stepMeta {cap : Cap} {L : Bool} (p : Pool) (m : Nat) (hg : Good cap
 
 /-! ### gather, flush, gather_and_close, until_closed: no slot moves -/
 
+theorem childFinished_taskFin (p : Pool) (cs : List Child) (h : cs.all p.childFinished = true) :
+    ∀ t, Child.task t ∈ cs → TaskFin p t := by
+  intro t ht
+  have := List.all_eq_true.mp h _ ht
+  simp only [childFinished] at this
+  split at this
+  · rename_i k hk
+    exact ⟨k, hk, by simpa using this⟩
+  · cases this
+
+/-- `_done_callback` of a gather: the count goes up; the outer future completes normally only when every child task
+has finished -/
 theorem tame_gatherChildDone (p : Pool) (g i b) : Tame p (p.gatherChildDone g i b) := by
   unfold gatherChildDone
-  repeat' (first | exact Tame.refl _ | exact tame_modGather _ _ _
-                 | exact Tame.trans (tame_modGather _ _ _) (tame_modGather _ _ _)
-                 | exact Tame.trans (Tame.trans (tame_modGather _ _ _) (tame_modGather _ _ _)) (tame_schedApi _ _)
-                 | split | dsimp only)
+  split
+  · exact Tame.refl p
+  · rename_i G hG
+    split
+    · exact Tame.refl p
+    · rename_i c hc
+      simp only
+      have t1 : Tame p (p.modGather g fun x => { x with nfinished := x.nfinished + 1 }) :=
+        tame_modGather p g _ (fun _ => rfl) (fun _ _ h => Or.inl h)
+      split
+      · exact t1
+      · split
+        · exact t1
+        · rename_i o ho
+          split
+          · exact t1
+          · rename_i hdef
+            have hall : o = .ok → G.children.all p.childFinished = true := by
+              intro e
+              subst e
+              simpa using hdef
+            have t2 : Tame (p.modGather g fun x => { x with nfinished := x.nfinished + 1 })
+                ((p.modGather g fun x => { x with nfinished := x.nfinished + 1 }).modGather g fun x => { x with outer := some o }) := by
+              refine tame_modGather _ g _ (fun _ => rfl) ?_
+              intro G1 hG1 hok
+              right
+              have e : o = .ok := by simpa using hok
+              have hch : G1.children = G.children := by
+                simp only [modGather, List.getElem?_modify, hG, Option.map_some, if_true] at hG1
+                have : G1 = { G with nfinished := G.nfinished + 1 } := by simpa using hG1.symm
+                rw [this]
+              rw [hch]
+              exact childFinished_taskFin p _ (hall e)
+            split
+            · exact (t1.trans t2).trans (tame_schedApi _ _)
+            · exact t1.trans t2
 
 theorem tame_registerChild (p : Pool) (c g i) : Tame p (p.registerChild c g i) := by
   unfold registerChild
@@ -367,44 +417,199 @@ theorem tame_gatherScan (g : Nat) (cs : List Child) (i : Nat) (p : Pool) : Tame 
     · exact tame_gatherChildDone p g i false
     · exact tame_registerChild p c g i
 
+/-- a new gather is appended: it has not completed unless it has no children at all -/
+theorem tame_addGather (p : Pool) (G : Gather) (amb : Bool) (hG : G.outer = some .ok → G.children = []) :
+    Tame p ({ p with gathers := p.gathers ++ [G], ambiguous := amb } : Pool) := by
+  refine ⟨⟨rfl, rfl, rfl, rfl, rfl, rfl, rfl, fun h => h, List.Sublist.refl _, fun _ tk' h => ⟨tk', h, rfl⟩, rfl, ?_⟩,
+    Nat.le_refl _, fun _ r' h => Or.inl ⟨r', h, MSigLe.refl r'⟩⟩
+  intro h
+  refine ⟨?_, ?_⟩
+  · intro g G' hg hok t ht
+    have hg' : (p.gathers ++ [G])[g]? = some G' := hg
+    rw [List.getElem?_append] at hg'
+    split at hg'
+    · exact h.gth g G' hg' hok t ht
+    · rcases Nat.lt_or_ge (g - p.gathers.length) 1 with h1 | h1
+      · have : g - p.gathers.length = 0 := by omega
+        rw [this] at hg'; simp at hg'; subst hg'
+        rw [hG hok] at ht; cases ht
+      · rw [List.getElem?_eq_none (by simpa using h1)] at hg'; cases hg'
+  · intro a A g ha hfr hk
+    obtain ⟨G0, hG0, hsub⟩ := h.api a A g ha hfr hk
+    refine ⟨G0, ?_, hsub⟩
+    show (p.gathers ++ [G])[g]? = some G0
+    rw [List.getElem?_append_left (List.getElem?_eq_some_iff.mp hG0).1]; exact hG0
+
 theorem tame_gatherStart (p : Pool) (cs re owner n) : Tame p (p.gatherStart cs re owner n).1 := by
   unfold gatherStart
   simp only
   refine Tame.trans ?_ (tame_gatherScan _ _ _ _)
-  exact tame_of_eq _ _ rfl rfl
+  refine tame_addGather p _ _ ?_
+  intro h
+  simp only at h
+  split at h
+  · rename_i he; simpa using he
+  · cases h
+
+/-- the gather just started sits at the returned index and has the given children; the background calls are untouched -/
+theorem gatherScan_facts (g : Nat) (cs : List Child) (i : Nat) (p : Pool) (ch : List Child) (G : Gather)
+    (hG : p.gathers[g]? = some G) (hch : G.children = ch) :
+    (∃ G', (gatherScan g cs i p).gathers[g]? = some G' ∧ G'.children = ch) ∧ (gatherScan g cs i p).apis = p.apis := by
+  induction cs generalizing i p G with
+  | nil => exact ⟨⟨G, hG, hch⟩, rfl⟩
+  | cons c cs ih =>
+    unfold gatherScan
+    split
+    · -- an already finished child: `gatherChildDone … false`
+      have key : (∃ G', (p.gatherChildDone g i false).gathers[g]? = some G' ∧ G'.children = ch) ∧
+          (p.gatherChildDone g i false).apis = p.apis := by
+        unfold gatherChildDone
+        simp only [hG]
+        split
+        · exact ⟨⟨G, hG, hch⟩, rfl⟩
+        · have h1 : (p.modGather g fun x => { x with nfinished := x.nfinished + 1 }).gathers[g]? =
+              some { G with nfinished := G.nfinished + 1 } := by
+            simp only [modGather]; exact getElem?_modify_eq _ _ _ _ hG
+          split
+          · exact ⟨⟨_, h1, hch⟩, rfl⟩
+          · split
+            · exact ⟨⟨_, h1, hch⟩, rfl⟩
+            · split
+              · exact ⟨⟨_, h1, hch⟩, rfl⟩
+              · split
+                · rename_i hb; cases hb
+                · rename_i o _ _ _
+                  refine ⟨⟨{ G with nfinished := G.nfinished + 1, outer := some o }, ?_, hch⟩, rfl⟩
+                  exact getElem?_modify_eq _ _ (fun x => { x with outer := some o }) _ h1
+      obtain ⟨⟨G1, a, b⟩, c1⟩ := key
+      obtain ⟨x, y⟩ := ih (i+1) _ G1 a b
+      exact ⟨x, y.trans c1⟩
+    · have key : (p.registerChild c g i).gathers = p.gathers ∧ (p.registerChild c g i).apis = p.apis := by
+        unfold registerChild; split <;> exact ⟨rfl, rfl⟩
+      obtain ⟨x, y⟩ := ih (i+1) _ G (by rw [key.1]; exact hG) hch
+      exact ⟨x, y.trans key.2⟩
+
+theorem gatherStart_facts (p : Pool) (cs : List Child) (re : Bool) (owner n : Nat) :
+    (∃ G', (p.gatherStart cs re owner n).1.gathers[(p.gatherStart cs re owner n).2]? = some G' ∧ G'.children = cs) ∧
+    (p.gatherStart cs re owner n).1.apis = p.apis := by
+  unfold gatherStart
+  simp only
+  exact gatherScan_facts _ cs 0 _ cs
+    { children := cs, nfinished := 0, owner := owner, retExc := re, outer := if cs.isEmpty then some .ok else none }
+    (by simp) rfl
 
 theorem tame_finishApi (p : Pool) (a o) : Tame p (p.finishApi a o) := tame_modApi p a _
 
-theorem good_flushAfter2 {cap : Cap} (p : Pool) (a o) (hg : Good cap true p) : Good cap true (p.flushAfter2 a o) := by
+/-- a fact about background call `a` -/
+def ApiAt (p : Pool) (a : Nat) (P : Api → Prop) : Prop := ∀ x, p.apis[a]? = some x → P x
+
+/-- the last step of `flush`: nothing is lost, because every task of the cancelled snapshot has finished — hence has
+handed back its slot and left the cancelled registry -/
+theorem good_flushAfter2 {cap : Cap} {L : Bool} (p : Pool) (a o) (hg : Good cap L p)
+    (hdone : o = .ok → ∀ t ∈ (p.apis[a]?.getD default).snapC, TaskFin p t) : Good cap L (p.flushAfter2 a o) := by
   unfold flushAfter2
   split
   · simp only
     refine (tame_finishApi _ a _).good ?_
+    have hnone : p.lost = false → (p.cancelledR.any fun t => (p.apis[a]?.getD default).snapC.contains t && p.heldB t) = false := by
+      intro hl
+      rw [List.any_eq_false]
+      intro t ht hc
+      simp only [Bool.and_eq_true] at hc
+      obtain ⟨tk, a1, b1⟩ := hdone rfl t (by simpa using hc.1)
+      have hrel : tk.released = true := ((hg.life t tk a1).fin b1 hl).1
+      obtain ⟨tk', a2, b2, _⟩ := hg.reg.can t ht
+      rw [a1] at a2; cases a2
+      rw [hrel] at b2; cases b2
     refine ⟨⟨hg.slot, hg.phase, ?_, hg.grp.of_eq rfl rfl, hg.life.lostMono rfl (fun h => by simp [h]),
-      fun h => Bool.noConfusion h, fun h => Bool.noConfusion h⟩, hg.map.of_eq rfl rfl⟩
+      hg.fl.frame rfl rfl (fun _ h => h),
+      fun h => by show (p.lost || _) = false; rw [hg.ll h, hnone (hg.ll h)]; rfl, hg.al⟩, hg.map.of_eq rfl rfl⟩
     exact hg.reg.flushForget _ _ _ rfl rfl rfl rfl (by simp)
   · exact (tame_finishApi p a _).good hg
 
-theorem good_flushAfter1 {cap : Cap} (p : Pool) (a re o) (hg : Good cap true p) : Good cap true (p.flushAfter1 a re o) := by
+/-- the second half of `flush`, from the start of its second gather -/
+theorem flush_tail {cap : Cap} {L : Bool} (P : Pool) (a : Nat) (re : Bool) (cs1 cs2 : List Nat) (hg : Good cap L P)
+    (hsn : ApiAt P a (fun x => x.snapC = cs2 ∧ x.kind.isGac = false)) :
+    Good cap L (match (P.gatherStart (cs1.map Child.task ++ cs2.map Child.task) re a 0).1.gatherOuter
+        (P.gatherStart (cs1.map Child.task ++ cs2.map Child.task) re a 0).2 with
+      | some o => (P.gatherStart (cs1.map Child.task ++ cs2.map Child.task) re a 0).1.flushAfter2 a o
+      | none => (P.gatherStart (cs1.map Child.task ++ cs2.map Child.task) re a 0).1.modApi a fun x =>
+          { x with frame := .gather2 (P.gatherStart (cs1.map Child.task ++ cs2.map Child.task) re a 0).2 }) := by
+  have hq := (tame_gatherStart P (cs1.map Child.task ++ cs2.map Child.task) re a 0).good hg
+  obtain ⟨⟨G', hG', hch⟩, hap⟩ := gatherStart_facts P (cs1.map Child.task ++ cs2.map Child.task) re a 0
+  generalize P.gatherStart (cs1.map Child.task ++ cs2.map Child.task) re a 0 = q at *
+  have hsn' : ApiAt q.1 a (fun x => x.snapC = cs2 ∧ x.kind.isGac = false) := by
+    intro x hx; rw [hap] at hx; exact hsn x hx
+  split
+  · rename_i o ho
+    refine good_flushAfter2 _ a o hq ?_
+    intro e t ht
+    subst e
+    have hout : G'.outer = some .ok := by
+      unfold gatherOuter at ho; rw [hG'] at ho; exact ho
+    refine hq.fl.gth _ G' hG' hout t ?_
+    rw [hch]
+    cases hx : q.1.apis[a]? with
+    | none =>
+      rw [hx] at ht
+      have : (default : Api).snapC = [] := rfl
+      simp [this] at ht
+    | some x =>
+      rw [hx] at ht
+      simp only [Option.getD_some] at ht
+      rw [(hsn' x hx).1] at ht
+      exact List.mem_append_right _ (List.mem_map.mpr ⟨t, ht, rfl⟩)
+  · refine (tame_modApi_of _ a (fun x => { x with frame := AFrame.gather2 q.2 }) (fun _ => rfl) ?_).good hq
+    intro hf
+    refine ⟨hf.gth, ?_⟩
+    intro i A' g hi hfr' hk
+    simp only [modApi] at hi
+    obtain ⟨x, hx, rfl⟩ := getElem?_modify_some _ a i _ A' hi
+    by_cases e : a = i
+    · subst e
+      simp only [if_true] at hfr' ⊢
+      have hg' : q.2 = g := by injection hfr'
+      subst hg'
+      refine ⟨G', hG', ?_⟩
+      intro t ht
+      have ht' : t ∈ x.snapC := ht
+      rw [(hsn' x hx).1] at ht'
+      rw [hch]
+      exact List.mem_append_right _ (List.mem_map.mpr ⟨t, ht', rfl⟩)
+    · simp only [e, if_false] at hfr' hk ⊢
+      exact hf.api i x g hx hfr' hk
+
+theorem good_flushAfter1 {cap : Cap} {L : Bool} (p : Pool) (a re o) (hg : Good cap L p)
+    (hfr : ApiAt p a (fun x => (∀ g, x.frame ≠ .gather2 g) ∧ x.kind.isGac = false)) :
+    Good cap L (p.flushAfter1 a re o) := by
   unfold flushAfter1
   split
   · exact (tame_finishApi p a _).good hg
   · simp only
     have h1 : Tame p ({ p with metaCancelled := [], reqs := p.reqs.map fun (r : Req) => { r with inCancelled := false } } : Pool) :=
       tame_of_map _ _ _ rfl rfl rfl (fun x => ⟨rfl, rfl, rfl, Nat.le_refl _, fun h => h⟩)
-    split
-    · refine good_flushAfter2 _ a _ ?_
-      refine Tame.good (Tame.trans (Tame.trans h1 (tame_modApi _ a _)) (tame_gatherStart _ _ _ _ _)) hg
-    · refine Tame.good ?_ hg
-      exact Tame.trans (Tame.trans (Tame.trans h1 (tame_modApi _ a _)) (tame_gatherStart _ _ _ _ _)) (tame_modApi _ a _)
+    have h2 := tame_modApi ({ p with metaCancelled := [], reqs := p.reqs.map fun (r : Req) => { r with inCancelled := false } } : Pool) a
+      (fun x => { x with snapE := p.ended, snapC := p.cancelledR }) (fun _ => rfl)
+      (fun x hx g h => absurd h ((hfr x hx).1 g))
+    refine flush_tail _ a re p.ended p.cancelledR ((h1.trans h2).good hg) ?_
+    intro x hx
+    simp only [modApi] at hx
+    obtain ⟨y, hy, rfl⟩ := getElem?_modify_some p.apis a a _ x hx
+    rw [if_pos rfl]
+    exact ⟨rfl, (hfr y hy).2⟩
 
-theorem good_flushStage1 {cap : Cap} (p : Pool) (a re) (hg : Good cap true p) : Good cap true (p.flushStage1 a re) := by
+theorem good_flushStage1 {cap : Cap} {L : Bool} (p : Pool) (a re) (hg : Good cap L p)
+    (hfr : ApiAt p a (fun x => (∀ g, x.frame ≠ .gather2 g) ∧ x.kind.isGac = false)) :
+    Good cap L (p.flushStage1 a re) := by
   unfold flushStage1
   simp only
   have h1 : Tame p ({ p with reqs := p.reqs.map fun (r : Req) => if r.inRunning && r.outcome.isSome then { r with inRunning := false } else r } : Pool) :=
     tame_of_map _ _ _ rfl rfl rfl (fun x => by split <;> exact ⟨rfl, rfl, rfl, Nat.le_refl _, fun h => h⟩)
   split
-  · exact good_flushAfter1 _ a re _ ((Tame.trans h1 (tame_gatherStart _ _ _ _ _)).good hg)
+  · refine good_flushAfter1 _ a re _ ((Tame.trans h1 (tame_gatherStart _ _ _ _ _)).good hg) ?_
+    intro x hx
+    rw [(gatherStart_facts _ _ _ _ _).2] at hx
+    exact hfr x hx
   · exact (Tame.trans (Tame.trans h1 (tame_gatherStart _ _ _ _ _)) (tame_modApi _ a _)).good hg
 
 theorem good_gacAfter2 {cap : Cap} (p : Pool) (a o) (hg : Good cap true p) : Good cap true (p.gacAfter2 a o) := by
@@ -414,11 +619,30 @@ theorem good_gacAfter2 {cap : Cap} (p : Pool) (a o) (hg : Good cap true p) : Goo
     refine (tame_finishApi _ a _).good ?_
     refine (tame_foldl _ _ (fun p w => tame_schedApi p w) _).good ?_
     exact ⟨⟨hg.slot, hg.phase, hg.reg.gacClear _ rfl rfl rfl rfl rfl, hg.grp.of_eq rfl rfl,
-      hg.life.lostMono rfl (fun h => by simp [h]), fun h => Bool.noConfusion h, fun h => Bool.noConfusion h⟩,
+      hg.life.lostMono rfl (fun h => by simp [h]), hg.fl.frame rfl rfl (fun _ h => h),
+      fun h => Bool.noConfusion h, fun h => Bool.noConfusion h⟩,
       hg.map.of_eq rfl rfl⟩
   · exact (tame_finishApi p a _).good hg
 
-theorem good_gacAfter1 {cap : Cap} (p : Pool) (a re g) (hg : Good cap true p) : Good cap true (p.gacAfter1 a re g) := by
+/-- putting a `gather_and_close` call into its second gather: nothing to show for its snapshot -/
+theorem tame_gacGather2 (p : Pool) (a g : Nat) (hk : ApiAt p a (fun x => x.kind.isGac = true)) :
+    Tame p (p.modApi a fun x => { x with frame := .gather2 g }) := by
+  refine tame_modApi_of p a _ (fun _ => rfl) ?_
+  intro hf
+  refine ⟨hf.gth, ?_⟩
+  intro i A' g' hi hfr' hkind
+  simp only [modApi] at hi
+  obtain ⟨x, hx, rfl⟩ := getElem?_modify_some _ a i _ A' hi
+  by_cases e : a = i
+  · subst e
+    simp only [if_true] at hkind
+    rw [show ({ x with frame := AFrame.gather2 g } : Api).kind = x.kind from rfl, hk x hx] at hkind
+    cases hkind
+  · simp only [e, if_false] at hfr' hkind ⊢
+    exact hf.api i x g' hx hfr' hkind
+
+theorem good_gacAfter1 {cap : Cap} (p : Pool) (a re g) (hg : Good cap true p)
+    (hk : ApiAt p a (fun x => x.kind.isGac = true)) : Good cap true (p.gacAfter1 a re g) := by
   unfold gacAfter1
   simp only
   split
@@ -427,14 +651,21 @@ theorem good_gacAfter1 {cap : Cap} (p : Pool) (a re g) (hg : Good cap true p) : 
       tame_of_map _ _ _ rfl rfl rfl (fun x => ⟨rfl, rfl, rfl, Nat.le_refl _, fun h => h⟩)
     split
     · exact good_gacAfter2 _ a _ ((Tame.trans h1 (tame_gatherStart _ _ _ _ _)).good hg)
-    · exact (Tame.trans (Tame.trans h1 (tame_gatherStart _ _ _ _ _)) (tame_modApi _ a _)).good hg
+    · refine (Tame.trans (Tame.trans h1 (tame_gatherStart _ _ _ _ _)) (tame_gacGather2 _ a _ ?_)).good hg
+      intro x hx
+      rw [(gatherStart_facts _ _ _ _ _).2] at hx
+      exact hk x hx
 
-theorem good_gacStage1 {cap : Cap} (p : Pool) (a re) (hg : Good cap true p) : Good cap true (p.gacStage1 a re) := by
+theorem good_gacStage1 {cap : Cap} (p : Pool) (a re) (hg : Good cap true p)
+    (hk : ApiAt p a (fun x => x.kind.isGac = true)) : Good cap true (p.gacStage1 a re) := by
   unfold gacStage1
   simp only
   split
-  · refine good_gacAfter1 _ a re _ (Tame.good (Tame.trans ?_ (tame_gatherStart _ _ _ _ _)) hg)
-    exact tame_of_eq _ _ rfl rfl
+  · refine good_gacAfter1 _ a re _ (Tame.good (Tame.trans ?_ (tame_gatherStart _ _ _ _ _)) hg) ?_
+    · exact tame_of_eq _ _ rfl rfl
+    · intro x hx
+      rw [(gatherStart_facts _ _ _ _ _).2] at hx
+      exact hk x hx
   · refine Tame.good (Tame.trans (Tame.trans ?_ (tame_gatherStart _ _ _ _ _)) (tame_modApi _ a _)) hg
     exact tame_of_eq _ _ rfl rfl
 
@@ -446,25 +677,70 @@ theorem tame_untilClosedStart (p : Pool) (a) : Tame p (p.untilClosedStart a) := 
     exact tame_of_eq _ _ rfl rfl
 
 theorem good_stepApi {cap : Cap} {L : Bool} (p : Pool) (a) (hg : Good cap L p) : Good cap L (p.stepApi a) := by
-  cases L with
-  | false =>
-    -- no flush / gather_and_close / until_closed call exists: the handle does nothing
-    have : p.apis[a]? = none := by rw [hg.al rfl]; rfl
-    unfold stepApi
-    simp only [this]
-    exact hg
-  | true =>
   unfold stepApi
   split
   · exact hg
-  · split
+  · rename_i A hA
+    split
     · exact hg
     · simp only
-      have hg0 : Good cap true (p.modApi a fun x => { x with sched := false }) := (tame_modApi p a _).good hg
-      repeat' (first | exact hg0 | exact good_flushStage1 _ _ _ hg0 | exact good_gacStage1 _ _ _ hg0
-                     | exact (tame_untilClosedStart _ _).good hg0 | exact (tame_finishApi _ _ _).good hg0
-                     | exact good_flushAfter1 _ _ _ _ hg0 | exact good_gacAfter1 _ _ _ _ hg0
-                     | exact good_flushAfter2 _ _ _ hg0 | exact good_gacAfter2 _ _ _ hg0 | split)
+      have hg0 : Good cap L (p.modApi a fun x => { x with sched := false }) := (tame_modApi p a _).good hg
+      have hat : ∀ P : Api → Prop, P { A with sched := false } → ApiAt (p.modApi a fun x => { x with sched := false }) a P := by
+        intro P hP x hx
+        simp only [modApi] at hx
+        obtain ⟨y, hy, rfl⟩ := getElem?_modify_some p.apis a a _ x hx
+        rw [hA] at hy; cases hy
+        simpa using hP
+      -- in the strict variant there is no `gather_and_close` call
+      have hnogac : L = false → A.kind.isGac = false := fun h => hg.al h A (List.mem_of_getElem? hA)
+      split
+      · exact hg0
+      · rename_i re hf hk
+        refine good_flushStage1 _ a re hg0 (hat _ ⟨fun g h => ?_, ?_⟩)
+        · rw [show ({ A with sched := false } : Api).frame = A.frame from rfl, hf] at h; cases h
+        · rw [show ({ A with sched := false } : Api).kind = A.kind from rfl, hk]; rfl
+      · rename_i re hf hk
+        cases L with
+        | false => have := hnogac rfl; rw [hk] at this; cases this
+        | true => exact good_gacStage1 _ a re hg0 (hat _ (by rw [show ({ A with sched := false } : Api).kind = A.kind from rfl, hk]; rfl))
+      · exact (tame_untilClosedStart _ _).good hg0
+      · exact (tame_finishApi _ _ _).good hg0
+      · rename_i g re hf hk
+        split
+        · refine good_flushAfter1 _ a re _ hg0 (hat _ ⟨fun g' h => ?_, ?_⟩)
+          · rw [show ({ A with sched := false } : Api).frame = A.frame from rfl, hf] at h; cases h
+          · rw [show ({ A with sched := false } : Api).kind = A.kind from rfl, hk]; rfl
+        · exact hg0
+      · rename_i g re hf hk
+        cases L with
+        | false => have := hnogac rfl; rw [hk] at this; cases this
+        | true =>
+          split
+          · exact good_gacAfter1 _ a re g hg0 (hat _ (by rw [show ({ A with sched := false } : Api).kind = A.kind from rfl, hk]; rfl))
+          · exact hg0
+      · rename_i g re hf hk
+        split
+        · rename_i o ho
+          refine good_flushAfter2 _ a o hg0 ?_
+          intro e t ht
+          subst e
+          -- the call is suspended in its second gather, which has completed normally
+          have hx : (p.modApi a fun x => { x with sched := false }).apis[a]? = some { A with sched := false } := by
+            simp only [modApi]; exact getElem?_modify_eq _ _ _ _ hA
+          rw [hx] at ht
+          simp only [Option.getD_some] at ht
+          obtain ⟨G, hG, hsub⟩ := hg0.fl.api a _ g hx hf (by rw [show ({ A with sched := false } : Api).kind = A.kind from rfl, hk]; rfl)
+          have hout : G.outer = some .ok := by simp only [gatherOuter, hG] at ho; exact ho
+          exact hg0.fl.gth g G hG hout t (hsub t ht)
+        · exact hg0
+      · rename_i g re hf hk
+        cases L with
+        | false => have := hnogac rfl; rw [hk] at this; cases this
+        | true =>
+          split
+          · exact good_gacAfter2 _ a _ hg0
+          · exact hg0
+      · exact hg0
 
 /-- running any handle preserves `Good` -/
 theorem good_runRef {cap : Cap} {L : Bool} (p : Pool) (r : Ref) (hg : Good cap L p) : Good cap L (p.runRef r) := by
@@ -474,10 +750,26 @@ theorem good_runRef {cap : Cap} {L : Bool} (p : Pool) (r : Ref) (hg : Good cap L
   | api a => exact good_stepApi p a hg
   | gchild g i => exact (tame_gatherChildDone p g i true).good hg
 
-/-- registering a `flush` / `gather_and_close` / `until_closed` call: only in the non-strict variant -/
-theorem good_addApi {cap : Cap} (p : Pool) (k) (hg : Good cap true p) : Good cap true (p.addApi k) :=
-  ⟨⟨hg.slot, hg.phase, hg.reg.of_eq rfl rfl rfl rfl rfl, hg.grp.of_eq rfl rfl, hg.life.of_eq rfl rfl,
-    fun h => Bool.noConfusion h, fun h => Bool.noConfusion h⟩, hg.map.of_eq rfl rfl⟩
+/-- registering a `flush` / `gather_and_close` / `until_closed` call -/
+theorem good_addApi {cap : Cap} {L : Bool} (p : Pool) (k : ApiKind) (hg : Good cap L p) (hk : L = false → k.isGac = false) :
+    Good cap L (p.addApi k) := by
+  refine ⟨⟨hg.slot, hg.phase, hg.reg.of_eq rfl rfl rfl rfl rfl, hg.grp.of_eq rfl rfl, hg.life.of_eq rfl rfl, ?_,
+    hg.ll, ?_⟩, hg.map.of_eq rfl rfl⟩
+  · refine ⟨hg.fl.gth, ?_⟩
+    intro a A g ha hfr hkind
+    have ha' : (p.apis ++ [{ kind := k, frame := AFrame.notStarted, sched := true, outcome := none }])[a]? = some A := ha
+    rw [List.getElem?_append] at ha'
+    split at ha'
+    · exact hg.fl.api a A g ha' hfr hkind
+    · rcases Nat.lt_or_ge (a - p.apis.length) 1 with h1 | h1
+      · have : a - p.apis.length = 0 := by omega
+        rw [this] at ha'; simp at ha'; subst ha'; cases hfr
+      · rw [List.getElem?_eq_none (by simpa using h1)] at ha'; cases ha'
+  · intro hl A hA
+    have hA' : A ∈ p.apis ++ [{ kind := k, frame := AFrame.notStarted, sched := true, outcome := none }] := hA
+    rcases List.mem_append.mp hA' with h | h
+    · exact hg.al hl A h
+    · simp at h; subst h; exact hk hl
 
 theorem tame_doGate (p : Pool) (t o) : Tame p (p.doGate t o).1 := by
   unfold doGate
@@ -519,18 +811,20 @@ theorem tame_applyOp (p : Pool) (op : Op) (hn : op.isSetSize = false) (ha : op.i
   | untilClosed => simp [Op.isAsync] at ha
   | gate t o => exact tame_doGate _ t o
 
-/-- every external operation except `pool_size = …` preserves `Good`; the strict variant excludes the background calls -/
+/-- `gather_and_close` -/
+def _root_.Taskpool.Op.isGac : Op → Bool
+  | .gac _ => true
+  | _ => false
+
+/-- every external operation except `pool_size = …` preserves `Good`; the strict variant excludes `gather_and_close` -/
 theorem good_applyOp {cap : Cap} {L : Bool} (p : Pool) (op : Op) (hn : op.isSetSize = false)
-    (ha : L = false → op.isAsync = false) (hg : Good cap L p) : Good cap L (p.applyOp op).1 := by
+    (ha : L = false → op.isGac = false) (hg : Good cap L p) : Good cap L (p.applyOp op).1 := by
   by_cases h : op.isAsync = true
-  · cases L with
-    | false => rw [ha rfl] at h; cases h
-    | true =>
-      cases op with
-      | flush re => exact good_addApi _ _ hg
-      | gac re => exact good_addApi _ _ hg
-      | untilClosed => exact good_addApi _ _ hg
-      | _ => simp [Op.isAsync] at h
+  · cases op with
+    | flush re => exact good_addApi _ _ hg (fun _ => rfl)
+    | gac re => exact good_addApi _ _ hg (fun hl => by have := ha hl; simp [Op.isGac] at this)
+    | untilClosed => exact good_addApi _ _ hg (fun _ => rfl)
+    | _ => simp [Op.isAsync] at h
   · exact (tame_applyOp p op hn (by simpa using h)).good hg
 
 end Pool
